@@ -36,7 +36,7 @@ ASSUMPTIONS = [
     "hand-subscribing two singleton observers built with subscribe=False is counted, not judged "
     "(the property's anchor is the constructor guard)",
 ]
-REQUIRED_COUNTERS = {"observers_built_unsubscribed": 50, "composite_before_child": 20, "mid_round_unsubscriptions": 30, "history_observer_created_mid_history": 20, "update_events_checked": 2000, "reset_events_checked": 50,
+REQUIRED_COUNTERS = {"mid_reset_unsubscriptions": 20, "observers_built_unsubscribed": 50, "composite_before_child": 20, "mid_round_unsubscriptions": 30, "history_observer_created_mid_history": 20, "update_events_checked": 2000, "reset_events_checked": 50,
                      "rejected_requests": 50, "singleton_guard_checks": 50,
                      "create_or_get_checks": 50, "unsubscribes": 50,
                      "history_observer_checks": 200}
@@ -71,6 +71,9 @@ def make_classes():
 
         def reset(self):
             self.log.append((self.label, "reset", None, self.probe(self.dispatcher, None)))
+            act, self.pending_reset_action = getattr(self, "pending_reset_action", None), None
+            if act is not None:
+                act()
 
     class SingleRecorder(Recorder):
         _is_singleton = True
@@ -216,12 +219,34 @@ def run_case(ctx, case):
                 script.append(("builtin_rejected", kind))
         elif ev < 0.31:
             warm(d)
+            recs_r = [x for x in subs if isinstance(x, Recorder)]
+            actor_r = victim_r = None
+            if len(recs_r) >= 2 and rng.random() < 0.3:
+                actor_r, victim_r = rng.choice(recs_r), rng.choice(recs_r)
+
+                def act_r(victim=victim_r):
+                    if victim in d.subscribers:
+                        d.unsubscribe(victim)
+                actor_r.pending_reset_action = act_r
+                ctx.count("mid_reset_unsubscriptions")
+                script.append(("mid_reset_unsub", labels[id(actor_r)], labels[id(victim_r)]))
             d.reset(); r.reset()
             if model_hist is not None:
                 model_hist = []
-            for s in subs:
+            order_r = list(subs)
+            gone_r = None
+            for s in order_r:
+                if s is gone_r:
+                    continue
                 if isinstance(s, Recorder):
                     expected.append((labels[id(s)], "reset", None, len(log)))
+                if s is actor_r and victim_r is not None:
+                    if order_r.index(victim_r) > order_r.index(actor_r):
+                        gone_r = victim_r
+                    subs.remove(victim_r)
+                    actor_r = None
+            if hist is not None and hist in subs and hist.history:
+                ctx.violation("c10_history_observer_not_reset", {"records": len(hist.history), "script": script})
             script.append(("reset",)); ctx.count("resets"); disturb += 1
         elif ev < 0.40:
             # rejected request: nobody may be notified
